@@ -979,6 +979,21 @@ class Interp(Folder):
         if isinstance(st, (ast.FunctionDef,)):
             env[st.name] = Func(st, env, self)
             return
+        if isinstance(st, ast.Delete):
+            for t in st.targets:
+                if isinstance(t, ast.Subscript):
+                    c = self.ev(t.value, env)
+                    k = self.ev(t.slice, env)
+                    _py(lambda: c.__delitem__(k))
+                elif isinstance(t, ast.Name):
+                    env.pop(t.id, None)
+                elif isinstance(t, ast.Attribute):
+                    o = self.ev(t.value, env)
+                    if isinstance(o, Obj):
+                        o.attrs.pop(t.attr, None)
+                else:
+                    self.err(st, "del target")
+            return
         if isinstance(st, (ast.Import, ast.ImportFrom)) and self.import_hook is not None:
             for a in st.names:
                 nm = a.asname or a.name.split(".")[0]
